@@ -213,7 +213,7 @@ static std::string first_line(const std::string& s)
 static Plan gen_c09(uint64_t seed, int64_t index, bool thorough)
 {
     Rng rng(hash_seed(seed, "C09", index));
-    std::vector<std::string> pk = keys_for({ "G2", "G3", "G4", "G5", "G8", "G9", "G10", "G10", "G12", "G15", "G15", "G17", "G17", "G19", "G19", "G20", "G20", "G22", "G22", "G23", "G23", "G24", "G24", "G25" });
+    std::vector<std::string> pk = keys_for({ "G2", "G3", "G4", "G5", "G8", "G9", "G10", "G10", "G12", "G15", "G15", "G17", "G17", "G19", "G19", "G20", "G20", "G22", "G22", "G23", "G23", "G24", "G24", "G25", "G26" });
     std::string key = rng.pick(pk);
     { std::vector<std::string> xk = random_grammar_keys(); if (!xk.empty() && rng.chance(1, 2)) key = rng.pick(xk); }   // thorough tier: seeded random grammars
     const ref::Model* m = model_for(grammar_of(key));
@@ -328,18 +328,26 @@ static std::vector<Violation> case_c09(const Plan& p, CaseCtx& cx)
     // looping pattern into the loop state, so G10's identifier loop continues into the tail of "a-b-c". The outcome is
     // then exactly what the documented driver gives over the parser's OWN automaton. Classified, never hidden: the
     // class keeps its name behind the prefix, and anything this does not explain stays a plain violation.
-    if (grammar_of(o.op.parser) == "G10" && o.rmodel && o.rmodel->dfa)
+    // Known finding F12, same root cause, other shapes (G26): a concatenation whose first part is a loop over a superset
+    // of the second part recognises too little ([0-9]*[05] does not match "5"), and a loop followed by its own symbol
+    // recognises too much (a+a matches "a"). Same classification rule: explained exactly by the parser's own automaton.
+    const std::string gname = grammar_of(o.op.parser);
+    if ((gname == "G10" || gname == "G26") && o.rmodel && o.rmodel->dfa)
     {
-        bool letter_dash = false;
-        for (size_t i = 0; i + 1 < o.rend.bytes.size(); ++i)
-            if (o.rend.bytes[i] >= 'a' && o.rend.bytes[i] <= 'z' && o.rend.bytes[i + 1] == '-') { letter_dash = true; break; }
-        if (letter_dash)
+        bool shape = gname == "G26";
+        for (size_t i = 0; !shape && i + 1 < o.rend.bytes.size(); ++i)
+            if (o.rend.bytes[i] >= 'a' && o.rend.bytes[i] <= 'z' && o.rend.bytes[i + 1] == '-') { shape = true; break; }
+        if (shape)
         {
             ref::RefResult r2 = ref_for(o, REF_REAL_TABLE);
             std::vector<Violation> v2;
             if (!r2.step_limit) c09_clauses(p, o, r2, v2);
             if (!r2.step_limit && v2.empty())
-                for (Violation& v : vs) { v.cls = "known_F5_lexer_merge__" + v.cls; v.detail = "[explained by the parser's own lexer automaton, F5] " + v.detail; }
+                for (Violation& v : vs)
+                {
+                    if (gname == "G10") { v.cls = "known_F5_lexer_merge__" + v.cls; v.detail = "[explained by the parser's own lexer automaton, F5] " + v.detail; }
+                    else { v.cls = "known_F12_regex_construction__" + v.cls; v.detail = "[explained by the parser's own lexer automaton, F12] " + v.detail; }
+                }
         }
     }
     return vs;
